@@ -154,7 +154,9 @@ func Merge[T any](remoteWrite bool, s1 []T, s2 []T) ([]T, bool) {
 		s1ItemHash := hashKey(s1Item)
 		s2Item, exist := m2[s1ItemHash]
 		writeAllowed := writeAllowed(s1Item)
-		if !writeAllowed && remoteWrite {
+		// a remote write fails if it addresses an item that may not be written,
+		// other items do not matter
+		if exist && !writeAllowed && remoteWrite {
 			success = false
 		}
 		// if exists and overwriting is allowed
@@ -176,10 +178,16 @@ func Merge[T any](remoteWrite bool, s1 []T, s2 []T) ([]T, bool) {
 	for _, s2Item := range s2 {
 		s2ItemHash := hashKey(s2Item)
 		_, exist := m1[s2ItemHash]
-		if !exist && !remoteWrite {
-			// only local updates can append data
-			result = append(result, s2Item)
+		if exist {
+			continue
 		}
+		if remoteWrite {
+			// only local updates can append data, so the remote write
+			// can not be applied completely
+			success = false
+			continue
+		}
+		result = append(result, s2Item)
 	}
 
 	return result, success
